@@ -2,6 +2,7 @@ import ast
 import operator
 import re
 from functools import reduce
+from keyword import iskeyword
 from typing import Callable
 
 replacements = {"!": "not ", "^": " and ", "v": " or "}
@@ -130,7 +131,7 @@ def parse_boolean_expr(expr, variable_hook, operator_mapping):
     """Parses the expression into an AST and build a custom expression tree"""
     if expr.strip() == "":
         raise SyntaxError("Empty expression")
-    if "!" not in expr and " " not in expr:
+    if expr.isidentifier() and not iskeyword(expr):
         return variable_hook(expr)
     expr = replace_operators(expr)
     tree = ast.parse(expr, mode="eval")
